@@ -24,6 +24,7 @@
      kind `pipe` (five ways of assembling the same chain, compared with each other and with the
      chain of machines).
 -/
+import RoProofs.SeqEq
 import RoProofs.Precision
 import RoProofs.Ops.MoreSpecs
 import RoProofs.Ops.CreateSpecs
@@ -313,6 +314,21 @@ theorem rangeWithStep (start endv : Int) (step : Nat) (hs : 0 < step) (c : Ctx) 
     (rangeStepG start endv (step : Int)).dropped c = [] :=
   rangeStepG_delivered start endv step hs c
 
+/-! ### SequenceEqual (operator_conditional.go; RoModel/Ops/SeqEq.lean; tie: kind=seqeq) -/
+
+/-- PARTIAL: for two completing sequences of EQUAL length SequenceEqual computes the documented function -/
+theorem sequenceEqual_partial (a b : List Int) (h : a.length = b.length) :
+    SeqEq.impl a .complete b .complete = SeqEq.spec a .complete b .complete := SeqEq.impl_spec_partial a b h
+
+/-- what the code computes for every pair of completing sequences: agreement on the common length -/
+theorem sequenceEqual_impl (a b : List Int) :
+    SeqEq.impl a .complete b .complete = [.val (decide (a.take b.length = b.take a.length)), .complete] := SeqEq.play_complete a b
+
+/-- DEVIATION (known finding; the pinned test has `Empty` vs `Just(1,2,3)` = true): a proper prefix "equals" its extension -/
+theorem sequenceEqual_prefix_deviation (a ext : List Int) :
+    SeqEq.impl a .complete (a ++ ext) .complete = [.val true, .complete] ∧ SeqEq.impl (a ++ ext) .complete a .complete = [.val true, .complete] :=
+  SeqEq.impl_prefix_true a ext
+
 /-! ### FloorWithPrecision / CeilWithPrecision (operator_math.go; tie: kind=precision, integers compared) -/
 
 /-- `FloorWithPrecision(places)` on `x = m / 2^k`: `n / 10^places` with `n` the greatest integer such that `n / 10^places ≤ x`
@@ -366,6 +382,11 @@ end Ro.C04d
 #print axioms Ro.C04d.ctxWithValue
 #print axioms Ro.C04d.range
 #print axioms Ro.C04d.rangeWithStep
+#print axioms Ro.C04d.sequenceEqual_partial
+#print axioms Ro.C04d.sequenceEqual_impl
+#print axioms Ro.C04d.sequenceEqual_prefix_deviation
+#print axioms Ro.SeqEq.length_witness
+#print axioms Ro.SeqEq.late_error_witness
 #print axioms Ro.C04d.floorWithPrecision
 #print axioms Ro.C04d.ceilWithPrecision
 #print axioms Ro.C04d.precision_floor_le_ceil
